@@ -238,6 +238,8 @@ func ReuseWAL(cfg *config.Config, dir string, nextSeq uint64) (*WAL, error) {
 func (w *WAL) Append(entryType uint8, key, value []byte) (uint64, error) {
 	w.mu.Lock()
 	defer w.mu.Unlock()
+	verifhook.Point("wal.locked.enter")
+	defer verifhook.Point("wal.locked.leave")
 
 	status := atomic.LoadInt32(&w.status)
 	if status == WALStatusClosed {
@@ -314,6 +316,8 @@ func (w *WAL) Append(entryType uint8, key, value []byte) (uint64, error) {
 func (w *WAL) AppendWithSequence(entryType uint8, key, value []byte, sequenceNumber uint64) (uint64, error) {
 	w.mu.Lock()
 	defer w.mu.Unlock()
+	verifhook.Point("wal.locked.enter")
+	defer verifhook.Point("wal.locked.leave")
 
 	status := atomic.LoadInt32(&w.status)
 	if status == WALStatusClosed {
@@ -471,6 +475,8 @@ func (w *WAL) writeRecordData(header, payload []byte) error {
 func (w *WAL) AppendExactBytes(rawBytes []byte, seqNum uint64) (uint64, error) {
 	w.mu.Lock()
 	defer w.mu.Unlock()
+	verifhook.Point("wal.locked.enter")
+	defer verifhook.Point("wal.locked.leave")
 
 	status := atomic.LoadInt32(&w.status)
 	if status == WALStatusClosed {
@@ -651,6 +657,8 @@ func (w *WAL) syncLocked() error {
 func (w *WAL) Sync() error {
 	w.mu.Lock()
 	defer w.mu.Unlock()
+	verifhook.Point("wal.locked.enter")
+	defer verifhook.Point("wal.locked.leave")
 
 	return w.syncLocked()
 }
@@ -659,6 +667,8 @@ func (w *WAL) Sync() error {
 func (w *WAL) AppendBatch(entries []*Entry) (uint64, error) {
 	w.mu.Lock()
 	defer w.mu.Unlock()
+	verifhook.Point("wal.locked.enter")
+	defer verifhook.Point("wal.locked.leave")
 
 	status := atomic.LoadInt32(&w.status)
 	if status == WALStatusClosed {
@@ -768,6 +778,8 @@ func (w *WAL) writeBatchEntry(entry *Entry, seqNum uint64) error {
 func (w *WAL) AppendBatchWithSequence(entries []*Entry, startSequence uint64) (uint64, error) {
 	w.mu.Lock()
 	defer w.mu.Unlock()
+	verifhook.Point("wal.locked.enter")
+	defer verifhook.Point("wal.locked.leave")
 
 	status := atomic.LoadInt32(&w.status)
 	if status == WALStatusClosed {
@@ -860,6 +872,8 @@ func (w *WAL) AppendBatchWithSequence(entries []*Entry, startSequence uint64) (u
 func (w *WAL) Close() error {
 	w.mu.Lock()
 	defer w.mu.Unlock()
+	verifhook.Point("wal.locked.enter")
+	defer verifhook.Point("wal.locked.leave")
 
 	status := atomic.LoadInt32(&w.status)
 	if status == WALStatusClosed {
@@ -985,6 +999,8 @@ func (w *WAL) notifySyncObservers(upToSeq uint64) {
 func (w *WAL) GetEntriesFrom(sequenceNumber uint64) ([]*Entry, error) {
 	w.mu.Lock()
 	defer w.mu.Unlock()
+	verifhook.Point("wal.locked.enter")
+	defer verifhook.Point("wal.locked.leave")
 
 	status := atomic.LoadInt32(&w.status)
 	if status == WALStatusClosed {
